@@ -44,6 +44,8 @@ type Contract struct {
 	Loops        map[int]*LoopSpec
 	Asserts      []*Clause
 	CrashInv     []*Clause
+	Ghost        []*GhostStmt // ghost assignments anchored after calls
+	Dead         map[string]bool // call sites (name#ordinal) acknowledged as unreachable in context (dead defensive code)
 	Witness      []*Clause
 	Replay       string
 	Props        []string // extra property ids this function's safety obligations count for
@@ -52,6 +54,18 @@ type Contract struct {
 	Pkg          string // package path the contract file belongs to
 	Used         bool
 	IsView       bool
+}
+
+// GhostStmt is a ghost assignment executed right after the Ord-th call (in source order) of
+// the function or method named Callee inside the contract's function:
+//   ghostcode after call connect 1: l.gin[ref(s2)] := true
+// The right-hand side may use result0, result1 .. for the results of that call.
+type GhostStmt struct {
+	Callee string
+	Ord    int
+	LHS    *Clause
+	RHS    *Clause
+	Src    string
 }
 
 type PureFn struct {
@@ -119,7 +133,7 @@ var keywords = map[string]bool{
 	"func": true, "requires": true, "ensures": true, "modifies": true, "trusted": true,
 	"inline": true, "maypanic": true, "panic_ensures": true, "loop": true, "pure": true,
 	"ghost": true, "axiom": true, "witness": true, "replay": true, "assert": true,
-	"nonilcheck": true, "props": true, "nilable": true, "crash_inv": true, "view": true, "opaque": true, "ghostcode": true,
+	"nonilcheck": true, "props": true, "nilable": true, "crash_inv": true, "view": true, "opaque": true, "ghostcode": true, "dead": true,
 }
 
 type directive struct {
@@ -240,6 +254,43 @@ func (s *Specs) ParseFile(path, pkgPath string) error {
 			case "crash_inv":
 				cur.CrashInv = append(cur.CrashInv, c)
 			}
+		case "dead":
+			// dead Get#1 opError#3 : these calls are on branches that cannot be taken in context
+			if cur == nil {
+				return fmt.Errorf("%s:%d: dead outside func", d.file, d.line)
+			}
+			if cur.Dead == nil {
+				cur.Dead = map[string]bool{}
+			}
+			for _, f := range strings.Fields(d.rest) {
+				cur.Dead[f] = true
+			}
+		case "ghostcode":
+			if cur == nil {
+				return fmt.Errorf("%s:%d: ghostcode outside func", d.file, d.line)
+			}
+			colon := strings.Index(d.rest, ":")
+			asg := strings.Index(d.rest, ":=")
+			if colon < 0 || asg < 0 || asg <= colon {
+				return fmt.Errorf("%s:%d: ghostcode: want 'after call NAME K: LHS := RHS'", d.file, d.line)
+			}
+			hf := strings.Fields(d.rest[:colon])
+			if len(hf) != 4 || hf[0] != "after" || hf[1] != "call" {
+				return fmt.Errorf("%s:%d: ghostcode: want 'after call NAME K: LHS := RHS'", d.file, d.line)
+			}
+			k, err := strconv.Atoi(hf[3])
+			if err != nil {
+				return fmt.Errorf("%s:%d: ghostcode: %v", d.file, d.line, err)
+			}
+			lhs, err := mk(strings.TrimSpace(d.rest[colon+1 : asg]))
+			if err != nil {
+				return err
+			}
+			rhs, err := mk(strings.TrimSpace(d.rest[asg+2:]))
+			if err != nil {
+				return err
+			}
+			cur.Ghost = append(cur.Ghost, &GhostStmt{Callee: hf[2], Ord: k, LHS: lhs, RHS: rhs, Src: d.rest})
 		case "modifies":
 			if cur == nil {
 				return fmt.Errorf("%s:%d: modifies outside func", d.file, d.line)
